@@ -572,8 +572,14 @@ func grpcExtractErrorFromTrailer(trailers http.Header) *connect.Error {
 			protocolError("invalid protobuf for error details: %w", err),
 		)
 	}
+	detailsCode := connect.Code(stat.GetCode()) //nolint:gosec // No information loss.
+	if detailsCode == 0 {
+		// The status in the details claims success although Grpc-Status does not: the
+		// RPC failed, with the code that Grpc-Status gives.
+		detailsCode = connect.Code(code)
+	}
 	trailerErr := connect.NewWireError(
-		connect.Code(stat.GetCode()), //nolint:gosec // No information loss.
+		detailsCode,
 		errors.New(stat.GetMessage()),
 	)
 	for _, msg := range stat.GetDetails() {
